@@ -14,6 +14,9 @@ TRIAGE = {
 }
 
 
+JOINED = re.compile(r"' '\.join\((?:map\(lambda (\w+): str\(\1\), msg\)|map\(str, msg\)|\(?str\((\w+)\) for \2 in msg\)?|\[str\((\w+)\) for \3 in msg\])\)")
+
+
 def check_loop_exits(ctx, rule, paths):
     """The read loop of parse_all is left only at end of input or on KeyboardInterrupt (also used by C18.4)."""
     repo = ctx.repo
@@ -21,13 +24,18 @@ def check_loop_exits(ctx, rule, paths):
     loops = [n for n in f_pa.body_nodes() if isinstance(n, (ast.While, ast.For))]
     ctx.check(len(loops) == 1, rule, 'parse_all:one-loop', f_pa.loc(), 'parse_all is one read loop')
     nb = 0
-    for n in f_pa.body_nodes():
-        if isinstance(n, ast.Return) or isinstance(n, ast.Break):
+    from ..sim import is_new_function
+    scope = [f_pa] + [g for g in repo.callgraph().closure([f_pa]) if is_new_function(g)]
+    for fn_ in scope:
+      for n in fn_.body_nodes():
+        if (isinstance(n, ast.Return) and (fn_ is f_pa or any(isinstance(x, ast.Yield) for x in ast.walk(fn_.node)))) or isinstance(n, ast.Break):
+            if isinstance(n, ast.Return) and n.value is not None:
+                continue
             nb += 1
             par = n._parent
             ok = False
             why = ''
-            if isinstance(par, ast.If) and norm(par.test) in ("line == ''", "'' == line", 'not line'):
+            if isinstance(par, ast.If) and re.match(r"^(\w+ == ''|'' == \w+|not \w+|len\(\w+\) == 0)$", norm(par.test)) and n in par.body:
                 ok, why = True, 'end of input'
             hh = n
             while hh is not None and not isinstance(hh, ast.ExceptHandler):
@@ -36,7 +44,7 @@ def check_loop_exits(ctx, rule, paths):
                 ok, why = True, 'interrupt'
             ctx.check(ok, rule, 'exit:%s:%s' % (type(n).__name__, why or norm(par)[:40]), f_pa.loc(n), 'loop exit on %s' % why,
                       'the read loop can also be left at `%s` under `%s`: remaining lines are lost' % (norm(n), norm(par.test)[:60] if isinstance(par, ast.If) else type(par).__name__))
-    ctx.floor(rule, nb, 2, 'loop exits')
+    ctx.floor(rule, nb, 1, 'loop exits')
     for p in paths:
         if p.outcome[0] == 'fall':
             eof = [v for a, v in p.decisions if a.text in ("'' == input_file.readline()",)] + \
@@ -257,14 +265,15 @@ def run(ctx):
     for p in up:
         for e in p.events:
             if e.kind == 'call' and e.ftext == 'self.show':
-                J = "' '.join(map(lambda m: str(m), msg))"
+                mj = JOINED.search(e.text)
+                J = mj.group(0) if mj else "' '.join(map(lambda m: str(m), msg))"
                 cut = any(isinstance(x, ast.Subscript) and J in norm(x.value) for a_ in e.args for x in ast.walk(a_)) or \
                     any(isinstance(x, ast.Call) and isinstance(x.func, ast.Attribute) and J in norm(x.func.value) and x.func.attr != 'join' for a_ in e.args for x in ast.walk(a_))
                 ctx.check(J in e.text and not cut, 'C08.4', 'unprocessed:text-through', f_unp.loc(e.node), 'the pass-through item contains the given text unaltered', 'pass-through item is %s' % e.text[:120])
     f_oshow = repo.func('Output.show')
     for p in paths_of(repo, f_oshow):
         w = [e for e in p.events if e.kind == 'call' and e.ftext == 'self.out.write']
-        ctx.check(len(w) == 1 and not p.decisions and "' '.join(map(lambda m: str(m), msg))" in w[0].text, 'C08.6', 'Output.show:writes-once-unconditionally', f_oshow.loc(),
+        ctx.check(len(w) == 1 and not p.decisions and bool(JOINED.search(w[0].text)) and w[0].argtext(0) == JOINED.search(w[0].text).group(0), 'C08.6', 'Output.show:writes-once-unconditionally', f_oshow.loc(),
                   'Output.show writes its text once, unconditionally', 'Output.show is %s' % p.describe()[:100])
     outc = repo.cls('core.output.output.Output')
     o_init = outc.find_method('__init__')
